@@ -10,6 +10,8 @@ Kernel-checked witnesses for C04, on C03's model of `Date` with two days of IERS
    (OEM); the readers construct every epoch in TIME_SYSTEM.  A TT-labelled maneuver date on a UTC-labelled orbit was
    read back 67.184 s later (`Message.dumpOwnScale`).  With the writers converting through `in_scale` (`Message.dump`,
    the current code) the same message reads back as the instants written: `ccsds_mixed_label_keeps_instant`.
+1b. `foreign_segment_scale_moves_instants` — regression witness for a writer that converts the epochs of a segment to the
+   scale of another segment (seeded change C04-m6): the segment is read back TT − UTC off.
 2. `same_day_shortcut_keeps_wrong_record` — regression witness: a `+` that, when the sum stays in the same day of the
    date's own scale, re-uses the operand's offset and EOP record instead of going through the constructor (seeded change
    C04-m4) gives, 10 s after TAI midnight, the record of the previous UTC day.
@@ -81,6 +83,29 @@ theorem ccsds_mixed_label_moves_instant :
 /-- the current writers: the same message reads back as the instants written -/
 theorem ccsds_mixed_label_keeps_instant :
     reread = some [instOf head, instOf man] ∧ instOf man = some 49321878350000000 := by
+  decide
+
+/-! ### 1b. a segment whose epochs are converted to ANOTHER segment's scale -/
+
+/-- a second segment whose dates are all labelled TT (TIME_SYSTEM = TT), its epochs converted to UTC — the scale of the
+first segment of the message — before printing (seeded change C04-m6): read back in TT, the whole segment is TT − UTC =
+67.184 s early; converted to its own head's scale it is read back exactly -/
+def seg2 : Option CcsdsDate.Message :=
+  match bind head (fun h => changeScale cfg env2 h tt), man with
+  | .ok h, .ok m => some ⟨h, [m]⟩
+  | _, _ => none
+
+def rereadSeg (f : CcsdsDate.Message → Except Err (Nat × List Int)) : Option (List (Option Int)) :=
+  match seg2 with
+  | some sg =>
+    match f sg with
+    | .ok w => some ((CcsdsDate.load cfg env2 w).map instOf)
+    | .error _ => none
+  | none => none
+
+theorem foreign_segment_scale_moves_instants :
+    rereadSeg (CcsdsDate.Message.dumpTo cfg env2 utc) = some [some (49321872350000000 - 671840000), some (49321878350000000 - 671840000)] ∧
+    rereadSeg (CcsdsDate.Message.dump cfg env2) = some [some 49321872350000000, some 49321878350000000] := by
   decide
 
 /-! ### 2. a same-day shortcut for `+` -/
